@@ -1564,8 +1564,14 @@ def container_gate(rng, n):
             box.deps.append((pre, False, rng.choice([0, G])))
             leaves_in = [t for t in p.ordered([box]) if not t.kids]
             outside = [t for t in p.tasks if t.name.startswith("chore")]
+            if rng.random() < 0.5:
+                # ... or to a task that is placed first of all: the leaves are then released by `prereq` alone, and every one
+                # of them carries a `depends` of its own (which hides the list it would inherit from the container)
+                spec = p.add_task("spec", effort=G * rng.randint(1, 4), alloc=[rng.choice(rs)], prio=950)
+                outside = [spec]
+            every = rng.random() < 0.5
             for b in leaves_in:
-                if outside and rng.random() < 0.6:
+                if outside and (every or rng.random() < 0.6):
                     b.deps.append((rng.choice(outside), False, 0))      # own edge to a task outside the container
             for a, b in zip(leaves_in, leaves_in[1:]):
                 if rng.random() < 0.4:
